@@ -13,6 +13,8 @@ Besides generic non-default values there is a deterministic boundary round (ever
 parameter that has a falsy boundary value takes it: probability 0.0, bias 0.0, default
 label 0, False flags) and boundary draws in the random rounds; the live generators of
 the original and the rebuilt simulation are compared as well.
+Tunables are also set to values that are a sibling class's default; every object is rebuilt a second time from the same
+dictionary, which must come out unchanged.
 """
 from __future__ import annotations
 
